@@ -55,55 +55,65 @@ variable {P P1 P2 : Type}
 (`st.tt.slots.size = 0`), from related positions, with the same window and the same state (hence the same
 `cancelAt` / `polls`), the two searches return literally the same triple: score, principal variation and final
 state — node count, poll count, `fuelOut`, and the (still empty) table. -/
-theorem function_of_game {g1 : Game P1} {g2 : Game P2} {R : P1 → P2 → Prop} (hsim : Sim g1 g2 R) (ex : Explore)
-    (le : LeafEval) (rootPly : Int) (d : Nat) {p1 : P1} {p2 : P2} (h : R p1 p2) (alpha beta : Score) (st : SState)
+theorem function_of_game {g1 : Game P1} {g2 : Game P2} {R : P1 → P2 → Prop} (hsim : Sim g1 g2 R)
+    {ex1 : P1 → Explore} {ex2 : P2 → Explore} (hex : ExRel (fun _ => R) ex1 ex2)
+    {le1 : LeafEval P1} {le2 : LeafEval P2} (hle : LeRel (fun _ => R) le1 le2)
+    (rootPly : Int) (d : Nat) {p1 : P1} {p2 : P2} (h : R p1 p2) (alpha beta : Score) (st : SState)
     (htt : st.tt.slots.size = 0) :
-    alphabeta g1 ex le rootPly d p1 alpha beta st = alphabeta g2 ex le rootPly d p2 alpha beta st :=
-  alphabeta_congr hsim.simN (ttInv_empty g1 g2 _) ex le rootPly d (d + leafDepth le) p1 p2 h (Nat.le_refl _)
+    alphabeta g1 ex1 le1 rootPly d p1 alpha beta st = alphabeta g2 ex2 le2 rootPly d p2 alpha beta st :=
+  alphabeta_congr hsim.simN (ttInv_empty g1 g2 _) hex hle rootPly d (d + leafDepth le1) p1 p2 h (Nat.le_refl _)
     alpha beta st htt
 
 /-- **function_of_game**, bounded form: a depth-indexed simulation `R` and positions related at an index
 `n ≥ d + leafDepth le` suffice. -/
 theorem function_of_game_bounded {g1 : Game P1} {g2 : Game P2} {R : Nat → P1 → P2 → Prop} (hsim : SimN g1 g2 R)
-    (ex : Explore) (le : LeafEval) (rootPly : Int) (d n : Nat) (hn : d + leafDepth le ≤ n) {p1 : P1} {p2 : P2}
+    {ex1 : P1 → Explore} {ex2 : P2 → Explore} (hex : ExRel R ex1 ex2)
+    {le1 : LeafEval P1} {le2 : LeafEval P2} (hle : LeRel R le1 le2)
+    (rootPly : Int) (d n : Nat) (hn : d + leafDepth le1 ≤ n) {p1 : P1} {p2 : P2}
     (h : R n p1 p2) (alpha beta : Score) (st : SState) (htt : st.tt.slots.size = 0) :
-    alphabeta g1 ex le rootPly d p1 alpha beta st = alphabeta g2 ex le rootPly d p2 alpha beta st :=
-  alphabeta_congr hsim (ttInv_empty g1 g2 R) ex le rootPly d n p1 p2 h hn alpha beta st htt
+    alphabeta g1 ex1 le1 rootPly d p1 alpha beta st = alphabeta g2 ex2 le2 rootPly d p2 alpha beta st :=
+  alphabeta_congr hsim (ttInv_empty g1 g2 R) hex hle rootPly d n p1 p2 h hn alpha beta st htt
 
 /-- **function_of_game** with a table of any size and content: it then suffices that related positions also
 carry the same hash. -/
 theorem function_of_game_tt {g1 : Game P1} {g2 : Game P2} {R : P1 → P2 → Prop} (hsim : Sim g1 g2 R)
-    (hhash : ∀ {p1 p2}, R p1 p2 → g1.hash p1 = g2.hash p2) (ex : Explore) (le : LeafEval) (rootPly : Int) (d : Nat)
+    (hhash : ∀ {p1 p2}, R p1 p2 → g1.hash p1 = g2.hash p2)
+    {ex1 : P1 → Explore} {ex2 : P2 → Explore} (hex : ExRel (fun _ => R) ex1 ex2)
+    {le1 : LeafEval P1} {le2 : LeafEval P2} (hle : LeRel (fun _ => R) le1 le2) (rootPly : Int) (d : Nat)
     {p1 : P1} {p2 : P2} (h : R p1 p2) (alpha beta : Score) (st : SState) :
-    alphabeta g1 ex le rootPly d p1 alpha beta st = alphabeta g2 ex le rootPly d p2 alpha beta st :=
-  alphabeta_congr hsim.simN (ttInv_hash (R := fun _ => R) (fun h => hhash h)) ex le rootPly d (d + leafDepth le) p1 p2
+    alphabeta g1 ex1 le1 rootPly d p1 alpha beta st = alphabeta g2 ex2 le2 rootPly d p2 alpha beta st :=
+  alphabeta_congr hsim.simN (ttInv_hash (R := fun _ => R) (fun h => hhash h)) hex hle rootPly d (d + leafDepth le1) p1 p2
     h (Nat.le_refl _) alpha beta st trivial
 
 /-- **function_of_game** for `Quiescence` (which never looks at the hash or the table: any state). -/
 theorem function_of_game_quiesce {g1 : Game P1} {g2 : Game P2} {R : P1 → P2 → Prop} (hsim : Sim g1 g2 R)
-    (ex : Explore) (fuel : Nat) {p1 : P1} {p2 : P2} (h : R p1 p2) (alpha beta : Score) (st : SState) :
-    quiesce g1 ex fuel p1 alpha beta st = quiesce g2 ex fuel p2 alpha beta st :=
-  quiesce_congr hsim.simN ex fuel fuel p1 p2 h (Nat.le_refl _) alpha beta st
+    {ex1 : P1 → Explore} {ex2 : P2 → Explore} (hex : ExRel (fun _ => R) ex1 ex2) (fuel : Nat) {p1 : P1} {p2 : P2}
+    (h : R p1 p2) (alpha beta : Score) (st : SState) :
+    quiesce g1 ex1 fuel p1 alpha beta st = quiesce g2 ex2 fuel p2 alpha beta st :=
+  quiesce_congr hsim.simN ex1 ex2 hex fuel fuel p1 p2 h (Nat.le_refl _) alpha beta st
 
 /-- **function_of_game** for `QuietSearch` (static leaf or quiescence). -/
 theorem function_of_game_quietSearch {g1 : Game P1} {g2 : Game P2} {R : P1 → P2 → Prop} (hsim : Sim g1 g2 R)
-    (le : LeafEval) {p1 : P1} {p2 : P2} (h : R p1 p2) (alpha beta : Score) (st : SState) :
-    quietSearch g1 le p1 alpha beta st = quietSearch g2 le p2 alpha beta st :=
-  quietSearch_congr hsim.simN le (n := leafDepth le) h (Nat.le_refl _) alpha beta st
+    {le1 : LeafEval P1} {le2 : LeafEval P2} (hle : LeRel (fun _ => R) le1 le2) {p1 : P1} {p2 : P2} (h : R p1 p2)
+    (alpha beta : Score) (st : SState) :
+    quietSearch g1 le1 p1 alpha beta st = quietSearch g2 le2 p2 alpha beta st :=
+  quietSearch_congr hsim.simN hle (n := leafDepth le1) h (Nat.le_refl _) alpha beta st
 
 /-- **function_of_game** for `AlphaBeta.Search`: the same reported result (`none` = halted, or node count, score
 and PV) and the same final state. -/
 theorem function_of_game_search {g1 : Game P1} {g2 : Game P2} {R : P1 → P2 → Prop} (hsim : Sim g1 g2 R)
-    (ex : Explore) (le : LeafEval) {p1 : P1} {p2 : P2} (h : R p1 p2) (d : Nat) (a b : Score) (st : SState)
+    {ex1 : P1 → Explore} {ex2 : P2 → Explore} (hex : ExRel (fun _ => R) ex1 ex2)
+    {le1 : LeafEval P1} {le2 : LeafEval P2} (hle : LeRel (fun _ => R) le1 le2) {p1 : P1} {p2 : P2} (h : R p1 p2)
+    (d : Nat) (a b : Score) (st : SState)
     (htt : st.tt.slots.size = 0) :
-    alphaBetaSearch g1 ex le p1 d a b st = alphaBetaSearch g2 ex le p2 d a b st :=
-  alphaBetaSearch_congr hsim.simN (ttInv_empty g1 g2 _) ex le (n := d + leafDepth le) h d (Nat.le_refl _) a b st htt
+    alphaBetaSearch g1 ex1 le1 p1 d a b st = alphaBetaSearch g2 ex2 le2 p2 d a b st :=
+  alphaBetaSearch_congr hsim.simN (ttInv_empty g1 g2 _) hex hle (n := d + leafDepth le1) h d (Nat.le_refl _) a b st htt
 
 /-- In particular the hash function of a game is irrelevant without a table: replace it by anything. -/
-theorem hash_irrelevant (g : Game P) (hash' : P → Nat) (ex : Explore) (le : LeafEval) (rootPly : Int) (d : Nat)
+theorem hash_irrelevant (g : Game P) (hash' : P → Nat) (ex : P → Explore) (le : LeafEval P) (rootPly : Int) (d : Nat)
     (p : P) (alpha beta : Score) (st : SState) (htt : st.tt.slots.size = 0) :
     alphabeta g ex le rootPly d p alpha beta st = alphabeta { g with hash := hash' } ex le rootPly d p alpha beta st := by
-  apply function_of_game (R := fun p q => p = q) _ ex le rootPly d rfl alpha beta st htt
+  apply function_of_game (R := fun p q => p = q) _ (ExRel.eq ex) (LeRel.eq le) rootPly d rfl alpha beta st htt
   refine ⟨?_, ?_, ?_, ?_, ?_, ?_⟩ <;> intro p1 p2
   · rintro rfl; rfl
   · rintro rfl; rfl
@@ -139,20 +149,22 @@ same game, each with a good history under its own table, and let every generated
 `n ≥ d + leafDepth le` plies be a good step (`SeedRel z1 z2 n w1 w2`). Then, without a table, the two searches
 return the same result (halted or not, node count, score, PV) and the same final state. -/
 theorem seed_independent {z1 z2 : ZTable} (hz1 : z1.enpassant 0 = 0) (hz2 : z2.enpassant 0 = 0)
-    (ev : Position → Color → Int) (ex : Explore) (le : LeafEval) {n : Nat} {w1 w2 : World}
+    (ev : Position → Color → Int) (ex : World → Explore) (le : LeafEval World)
+    (hex : ExRel (SeedRel z1 z2) ex ex) (hle : LeRel (SeedRel z1 z2) le le) {n : Nat} {w1 w2 : World}
     (h : SeedRel z1 z2 n w1 w2) (d : Nat) (hn : d + leafDepth le ≤ n) (a b : Score) (st : SState)
     (htt : st.tt.slots.size = 0) :
     alphaBetaSearch (boardGame z1 ev) ex le w1 d a b st = alphaBetaSearch (boardGame z2 ev) ex le w2 d a b st :=
-  alphaBetaSearch_congr (seed_simN hz1 hz2 ev) (ttInv_empty _ _ _) ex le h d hn a b st htt
+  alphaBetaSearch_congr (seed_simN hz1 hz2 ev) (ttInv_empty _ _ _) hex hle h d hn a b st htt
 
 /-- **seed_independent** for `alphabeta` itself (any root ply, any window). -/
 theorem seed_independent_alphabeta {z1 z2 : ZTable} (hz1 : z1.enpassant 0 = 0) (hz2 : z2.enpassant 0 = 0)
-    (ev : Position → Color → Int) (ex : Explore) (le : LeafEval) (rootPly : Int) {n : Nat} {w1 w2 : World}
+    (ev : Position → Color → Int) (ex : World → Explore) (le : LeafEval World)
+    (hex : ExRel (SeedRel z1 z2) ex ex) (hle : LeRel (SeedRel z1 z2) le le) (rootPly : Int) {n : Nat} {w1 w2 : World}
     (h : SeedRel z1 z2 n w1 w2) (d : Nat) (hn : d + leafDepth le ≤ n) (alpha beta : Score) (st : SState)
     (htt : st.tt.slots.size = 0) :
     alphabeta (boardGame z1 ev) ex le rootPly d w1 alpha beta st =
       alphabeta (boardGame z2 ev) ex le rootPly d w2 alpha beta st :=
-  alphabeta_congr (seed_simN hz1 hz2 ev) (ttInv_empty _ _ _) ex le rootPly d n w1 w2 h hn alpha beta st htt
+  alphabeta_congr (seed_simN hz1 hz2 ev) (ttInv_empty _ _ _) hex hle rootPly d n w1 w2 h hn alpha beta st htt
 
 /-- **seed_independent, worlds built by the same operations.** Set up a board on `pos` (clock `np ≥ 0`) in the
 empty world with table `z1`, and another with table `z2`; play the same moves `ms` on both. If the moves are good
@@ -160,7 +172,8 @@ steps and so is every generated move within `n ≥ d + leafDepth le` plies of th
 then both move sequences are accepted or both refused, and in the former case the searches of the two worlds
 return the same result and final state. -/
 theorem seed_independent_play {z1 z2 : ZTable} (hz1 : z1.enpassant 0 = 0) (hz2 : z2.enpassant 0 = 0)
-    (ev : Position → Color → Int) (ex : Explore) (le : LeafEval) (pos : Position) (turn : Color) {np : Int}
+    (ev : Position → Color → Int) (ex : World → Explore) (le : LeafEval World)
+    (hex : ExRel (SeedRel z1 z2) ex ex) (hle : LeRel (SeedRel z1 z2) le le) (pos : Position) (turn : Color) {np : Int}
     (hnp : 0 ≤ np) (fm : Int) (ms : List Move) (n : Nat) (hgood : GoodPlay n pos turn ms) (d : Nat)
     (hn : d + leafDepth le ≤ n) (a b : Score) (st : SState) (htt : st.tt.slots.size = 0) :
     ORel (fun w1 w2 => SeedRel z1 z2 n w1 w2 ∧
@@ -176,7 +189,7 @@ theorem seed_independent_play {z1 z2 : ZTable} (hz1 : z1.enpassant 0 = 0) (hz2 :
     rw [hc.1, hc.2.1]
     exact hgood
   exact (seedRel_pushAll hz1 hz2 n ms hbase hg).imp fun w1 w2 _ _ hr =>
-    ⟨hr, seed_independent hz1 hz2 ev ex le hr d hn a b st htt⟩
+    ⟨hr, seed_independent hz1 hz2 ev ex le hex hle hr d hn a b st htt⟩
 
 /-- The arena-level reading of `SameGame`: worlds that are literally equal — node by node (position, clock,
 `next`, `prev`) and board by board (flags, counters, side, result, current index) — except for the node hashes and
@@ -200,15 +213,15 @@ evaluation, depth, position, window and the state passed in (`SState`: table, co
 Repeating a search with the same arguments returns the same result; a search run before or alongside it — on this
 or on another world, game or state — cannot influence it, because the model has no other state: whatever is to be
 carried from one search to the next has to be passed in through `st`. -/
-theorem repeatable (g : Game P) (ex : Explore) (le : LeafEval) (d : Nat) {p p' : P} {a a' b b' : Score}
+theorem repeatable (g : Game P) (ex : P → Explore) (le : LeafEval P) (d : Nat) {p p' : P} {a a' b b' : Score}
     {st st' : SState} (hp : p = p') (ha : a = a') (hb : b = b') (hst : st = st') :
     alphaBetaSearch g ex le p d a b st = alphaBetaSearch g ex le p' d a' b' st' := by
   subst hp ha hb hst; rfl
 
 /-- **repeatable**, another search in between: running any search `other` (of any game, from any state) first and
 then ours from `st` gives what ours gives alone — nothing but the arguments is shared. -/
-theorem repeatable_after {Q : Type} (g' : Game Q) (ex' : Explore) (le' : LeafEval) (q : Q) (d' : Nat) (a' b' : Score)
-    (st' : SState) (g : Game P) (ex : Explore) (le : LeafEval) (p : P) (d : Nat) (a b : Score) (st : SState) :
+theorem repeatable_after {Q : Type} (g' : Game Q) (ex' : Q → Explore) (le' : LeafEval Q) (q : Q) (d' : Nat) (a' b' : Score)
+    (st' : SState) (g : Game P) (ex : P → Explore) (le : LeafEval P) (p : P) (d : Nat) (a b : Score) (st : SState) :
     (let _other := alphaBetaSearch g' ex' le' q d' a' b' st'
      alphaBetaSearch g ex le p d a b st) = alphaBetaSearch g ex le p d a b st := rfl
 
@@ -216,7 +229,7 @@ theorem repeatable_after {Q : Type} (g' : Game Q) (ex' : Explore) (le' : LeafEva
 table, only counters (`nodes`, `polls`) and the flag `fuelOut`; they are only ever added to / or-ed
 (`Proofs.Det.alphabeta_shift`). So from any two states with the same table and no cancellation instant,
 `alphaBetaSearch` reports the same result: halted or not, node count, score and PV. -/
-theorem state_irrelevant (g : Game P) (ex : Explore) (le : LeafEval) (p : P) (d : Nat) (a b : Score)
+theorem state_irrelevant (g : Game P) (ex : P → Explore) (le : LeafEval P) (p : P) (d : Nat) (a b : Score)
     {st1 st2 : SState} (htt : st1.tt = st2.tt) (h1 : st1.cancelAt = none) (h2 : st2.cancelAt = none) :
     (alphaBetaSearch g ex le p d a b st1).1 = (alphaBetaSearch g ex le p d a b st2).1 := by
   rw [alphaBetaSearch_fresh g ex le p d a b st1 h1, alphaBetaSearch_fresh g ex le p d a b st2 h2, htt]
@@ -225,8 +238,8 @@ theorem state_irrelevant (g : Game P) (ex : Explore) (le : LeafEval) (p : P) (d 
 other search first (any game, position, depth, window) and hand the state it leaves to ours: ours reports exactly
 what it reports when run first. (The other search leaves the table field untouched and the cancellation instant
 unchanged; its counters are irrelevant by `state_irrelevant`.) -/
-theorem repeatable_threaded {Q : Type} (g' : Game Q) (ex' : Explore) (le' : LeafEval) (q : Q) (d' : Nat) (a' b' : Score)
-    (g : Game P) (ex : Explore) (le : LeafEval) (p : P) (d : Nat) (a b : Score) (st : SState)
+theorem repeatable_threaded {Q : Type} (g' : Game Q) (ex' : Q → Explore) (le' : LeafEval Q) (q : Q) (d' : Nat) (a' b' : Score)
+    (g : Game P) (ex : P → Explore) (le : LeafEval P) (p : P) (d : Nat) (a b : Score) (st : SState)
     (htt : st.tt.slots.size = 0) (hc : st.cancelAt = none) :
     (alphaBetaSearch g ex le p d a b (alphaBetaSearch g' ex' le' q d' a' b' st).2).1 =
       (alphaBetaSearch g ex le p d a b st).1 :=
@@ -234,7 +247,7 @@ theorem repeatable_threaded {Q : Type} (g' : Game Q) (ex' : Explore) (le' : Leaf
     ((alphaBetaSearch_cancelAt g' ex' le' q d' a' b' st).trans hc) hc
 
 /-- In particular a search repeated on the state its first run left behind reports the same again. -/
-theorem repeatable_twice (g : Game P) (ex : Explore) (le : LeafEval) (p : P) (d : Nat) (a b : Score) (st : SState)
+theorem repeatable_twice (g : Game P) (ex : P → Explore) (le : LeafEval P) (p : P) (d : Nat) (a b : Score) (st : SState)
     (htt : st.tt.slots.size = 0) (hc : st.cancelAt = none) :
     (alphaBetaSearch g ex le p d a b (alphaBetaSearch g ex le p d a b st).2).1 =
       (alphaBetaSearch g ex le p d a b st).1 :=
@@ -243,7 +256,7 @@ theorem repeatable_twice (g : Game P) (ex : Explore) (le : LeafEval) (p : P) (d 
 /-- When a table *is* carried over (`st.tt` of a previous search), the result can differ only through it — and by
 C11 the root score does not: over any sound table, without cancellation, at the full window, it is the score of
 the search without a table (`C11.transparent`). -/
-theorem carried_table_same_score (g : Game P) (ex : Explore) (le : LeafEval) (rootPly : Int)
+theorem carried_table_same_score (g : Game P) (ex : P → Explore) (le : LeafEval P) (rootPly : Int)
     (hev : Proofs.AB.EvalOk g) (hh : Proofs.AB.HashOK g ex le) (hrf : Proofs.AB.RootFree g rootPly) (d : Nat)
     (hd : Proofs.AB.leafGrade le + d ≤ 127) (p : P) (st : SState) (hs : Proofs.AB.Sound g ex le st.tt)
     (hc : st.cancelAt = none) (st0 : SState) (h0 : st0.tt.slots.size = 0) (hc0 : st0.cancelAt = none) :
@@ -279,26 +292,28 @@ theorem fork_harmless {w : World} (hw : WFWorld w) (hb : 0 < w.boards.size) :
 `uciGoDepth` — `rebase` of the forked world: the fork as board 0 — has, on board 0, the view of the engine's board 0;
 so with any table and any cancellation instant the search returns what it would return on the engine's world
 itself. -/
-theorem analysis_sees_the_game (z : ZTable) (ev : Position → Color → Int) (ex : Explore) (le : LeafEval) {w : World}
+theorem analysis_sees_the_game (z : ZTable) (ev : Position → Color → Int) (ex : World → Explore) (le : LeafEval World)
+    (hex : ExRel (fun _ => ViewRel) ex ex) (hle : LeRel (fun _ => ViewRel) le le) {w : World}
     (hw : WFWorld w) (hb : 0 < w.boards.size) (d : Nat) (a b : Score) (st : SState) :
     alphaBetaSearch (boardGame z ev) ex le (rebase (w.fork 0).1 (w.fork 0).2) d a b st =
       alphaBetaSearch (boardGame z ev) ex le w d a b st := by
   obtain ⟨hv, hwf, hlt⟩ := viewRel_fork hw 0
-  exact search_of_view_eq z ev ex le ⟨hwf, hw, hlt, hb, hv⟩ d a b st
+  exact search_of_view_eq z ev ex le hex hle ⟨hwf, hw, hlt, hb, hv⟩ d a b st
 
 /-- The engine's analysis step in the model: fork board 0, hand the search the rebased world, keep the world. -/
-def analyze (z : ZTable) (ev : Position → Color → Int) (ex : Explore) (le : LeafEval) (w : World) (d : Nat)
+def analyze (z : ZTable) (ev : Position → Color → Int) (ex : World → Explore) (le : LeafEval World) (w : World) (d : Nat)
     (st : SState) : (Option SearchResult × SState) × World :=
   (alphaBetaSearch (boardGame z ev) ex le (rebase (w.fork 0).1 (w.fork 0).2) d invalidScore invalidScore st, w)
 
 /-- **The model search is pure**: `alphaBetaSearch` returns a result and a search state, no world. So the engine's
 world after analysis is literally the world before — and what the analysis reports is what a search of the engine's
 own board would report. -/
-theorem analyze_pure (z : ZTable) (ev : Position → Color → Int) (ex : Explore) (le : LeafEval) {w : World}
+theorem analyze_pure (z : ZTable) (ev : Position → Color → Int) (ex : World → Explore) (le : LeafEval World)
+    (hex : ExRel (fun _ => ViewRel) ex ex) (hle : LeRel (fun _ => ViewRel) le le) {w : World}
     (hw : WFWorld w) (hb : 0 < w.boards.size) (d : Nat) (st : SState) :
     (analyze z ev ex le w d st).2 = w ∧
     (analyze z ev ex le w d st).1 = alphaBetaSearch (boardGame z ev) ex le w d invalidScore invalidScore st :=
-  ⟨rfl, analysis_sees_the_game z ev ex le hw hb d _ _ st⟩
+  ⟨rfl, analysis_sees_the_game z ev ex le hex hle hw hb d _ _ st⟩
 
 /-! ## 5. the hypotheses are satisfiable -/
 
@@ -353,7 +368,7 @@ main search with quiescence leaves, any window — although no two related posit
 example (alpha beta : Score) :
     alphabeta tiny allMoves (.quiescence allMoves 2) 0 2 0 alpha beta {} =
       alphabeta tiny' allMoves (.quiescence allMoves 2) 0 2 100 alpha beta {} :=
-  function_of_game tiny_sim allMoves _ 0 2 rfl alpha beta {} rfl
+  function_of_game tiny_sim (fun _ _ _ _ => rfl) (.quiescence 2 (fun _ _ _ _ => rfl)) 0 2 rfl alpha beta {} rfl
 
 example : ∀ p, tiny.hash p ≠ tiny'.hash (p + 100) := by
   intro p; simp only [tiny, tiny', id]; omega
@@ -409,9 +424,9 @@ theorem ex_seedRel : SeedRel exZ exZ2 2 C05.wS wS2 := by
 /-- `seed_independent` instantiated: the depth-2 material search (as `uciGoDepth` runs it) returns the same on
 both boards … -/
 example :
-    alphaBetaSearch (materialGame exZ) fullExploration .static C05.wS 2 invalidScore invalidScore {} =
-      alphaBetaSearch (materialGame exZ2) fullExploration .static wS2 2 invalidScore invalidScore {} :=
-  seed_independent (z1 := exZ) (z2 := exZ2) rfl rfl _ fullExploration .static ex_seedRel 2 (Nat.le_refl 2) _ _ {} rfl
+    alphaBetaSearch (materialGame exZ) (constEx fullExploration) .static C05.wS 2 invalidScore invalidScore {} =
+      alphaBetaSearch (materialGame exZ2) (constEx fullExploration) .static wS2 2 invalidScore invalidScore {} :=
+  seed_independent (z1 := exZ) (z2 := exZ2) rfl rfl _ (constEx fullExploration) .static (ExRel.const _ _) .static ex_seedRel 2 (Nat.le_refl 2) _ _ {} rfl
 
 /-- … although the hashes of the two start nodes differ. -/
 example : (C05.wS.cur 0).hash ≠ (wS2.cur 0).hash := by decide +kernel
@@ -426,10 +441,10 @@ theorem ex_playCheck : playTreeCheck 1 C05.exPos .white ms7 = true := by decide 
 three-fold repetition that `pushMove` finds through the (hash-keyed) repetition map. -/
 example :
     ORel (fun w1 w2 => SeedRel exZ exZ2 1 w1 w2 ∧
-        alphaBetaSearch (materialGame exZ) fullExploration .static w1 1 invalidScore invalidScore {} =
-          alphaBetaSearch (materialGame exZ2) fullExploration .static w2 1 invalidScore invalidScore {})
+        alphaBetaSearch (materialGame exZ) (constEx fullExploration) .static w1 1 invalidScore invalidScore {} =
+          alphaBetaSearch (materialGame exZ2) (constEx fullExploration) .static w2 1 invalidScore invalidScore {})
       (pushAll exZ 0 C05.wS ms7) (pushAll exZ2 0 wS2 ms7) :=
-  seed_independent_play (z1 := exZ) (z2 := exZ2) rfl rfl _ fullExploration .static C05.exPos .white (Int.le_refl 0) 1
+  seed_independent_play (z1 := exZ) (z2 := exZ2) rfl rfl _ (constEx fullExploration) .static (ExRel.const _ _) .static C05.exPos .white (Int.le_refl 0) 1
     ms7 1 (goodPlay_of_check 1 ms7 C05.exPos .white C05.exPos_ok ex_playCheck) 1 (Nat.le_refl 1) _ _ {} rfl
 
 /-- Evaluated cross-check: both move sequences are accepted; on both boards `… Ng8` is then reported as a draw by
@@ -443,20 +458,20 @@ example :
 
 example :
     ((pushAll exZ 0 C05.wS ms7).bind fun w =>
-      (alphaBetaSearch (materialGame exZ) fullExploration .static w 1 invalidScore invalidScore {}).1.map
+      (alphaBetaSearch (materialGame exZ) (constEx fullExploration) .static w 1 invalidScore invalidScore {}).1.map
         fun r => (r.nodes, r.score, r.pv.map fun m => (m.from, m.to))) = some (12, heuristicScore 0, [(42, 25)]) ∧
     ((pushAll exZ2 0 wS2 ms7).bind fun w =>
-      (alphaBetaSearch (materialGame exZ2) fullExploration .static w 1 invalidScore invalidScore {}).1.map
+      (alphaBetaSearch (materialGame exZ2) (constEx fullExploration) .static w 1 invalidScore invalidScore {}).1.map
         fun r => (r.nodes, r.score, r.pv.map fun m => (m.from, m.to))) = some (12, heuristicScore 0, [(42, 25)]) := by
   constructor <;> decide +kernel
 
 /-- `analysis_isolated` / `analyze_pure` instantiated on the world of C08's examples: the engine's board 0 after an
 analysis of any depth is the board before, and the fork-and-rebase search returns what a search of board 0 returns. -/
 example (d : Nat) (st : SState) :
-    (analyze C08.z0 (fun _ _ => 0) fullExploration .static C08.w0 d st).2 = C08.w0 ∧
-    (analyze C08.z0 (fun _ _ => 0) fullExploration .static C08.w0 d st).1 =
-      alphaBetaSearch (boardGame C08.z0 fun _ _ => 0) fullExploration .static C08.w0 d invalidScore invalidScore st :=
-  analyze_pure C08.z0 _ fullExploration .static C08.w0_wf (by decide) d st
+    (analyze C08.z0 (fun _ _ => 0) (constEx fullExploration) .static C08.w0 d st).2 = C08.w0 ∧
+    (analyze C08.z0 (fun _ _ => 0) (constEx fullExploration) .static C08.w0 d st).1 =
+      alphaBetaSearch (boardGame C08.z0 fun _ _ => 0) (constEx fullExploration) .static C08.w0 d invalidScore invalidScore st :=
+  analyze_pure C08.z0 _ (constEx fullExploration) .static (ExRel.const _ _) .static C08.w0_wf (by decide) d st
 
 /-- A balanced run on the fork (`push m0, push m1, pop, pop`), and a prefix of one, in that world. -/
 example : Balanced [Op.push C08.m0, Op.push C08.m1, Op.pop, Op.pop] :=
@@ -505,56 +520,59 @@ the former case the two worlds are related by the simulation relation at depth `
 table, the two searches of depth `d` return the same result (halted or not, node count, score, PV) and the same final
 state. -/
 theorem seed_independent_reachable {z1 z2 : ZTable} (hz1 : z1.enpassant 0 = 0) (hz2 : z2.enpassant 0 = 0)
-    (ev : Position → Color → Int) (ex : Explore) (le : LeafEval) {pos : Position} {turn : Color}
+    (ev : Position → Color → Int) (ex : World → Explore) (le : LeafEval World)
+    (hex : ExRel (SeedRel z1 z2) ex ex) (hle : LeRel (SeedRel z1 z2) le le) {pos : Position} {turn : Color}
     (hpos : WFplay pos turn) {np : Int} (hnp : 0 ≤ np) (fm : Int) {ms : List Move} (hgen : GenPlay pos turn ms)
     (d : Nat) (a b : Score) (st : SState) (htt : st.tt.slots.size = 0) :
     ORel (fun w1 w2 => SeedRel z1 z2 (d + leafDepth le) w1 w2 ∧
         alphaBetaSearch (boardGame z1 ev) ex le w1 d a b st = alphaBetaSearch (boardGame z2 ev) ex le w2 d a b st)
       (pushAll z1 0 (({} : World).newBoard z1 pos turn np fm).1 ms)
       (pushAll z2 0 (({} : World).newBoard z2 pos turn np fm).1 ms) :=
-  seed_independent_play hz1 hz2 ev ex le pos turn hnp fm ms (d + leafDepth le)
+  seed_independent_play hz1 hz2 ev ex le hex hle pos turn hnp fm ms (d + leafDepth le)
     (goodPlay_of_wfplay (d + leafDepth le) ms pos turn hpos hgen) d (Nat.le_refl _) a b st htt
 
 /-- **seed independence at the start position itself** (no moves played): the two fresh boards on a `WFplay` position,
 hashed with different tables, give the same search result at every depth. -/
 theorem seed_independent_start {z1 z2 : ZTable} (hz1 : z1.enpassant 0 = 0) (hz2 : z2.enpassant 0 = 0)
-    (ev : Position → Color → Int) (ex : Explore) (le : LeafEval) {pos : Position} {turn : Color}
+    (ev : Position → Color → Int) (ex : World → Explore) (le : LeafEval World)
+    (hex : ExRel (SeedRel z1 z2) ex ex) (hle : LeRel (SeedRel z1 z2) le le) {pos : Position} {turn : Color}
     (hpos : WFplay pos turn) {np : Int} (hnp : 0 ≤ np) (fm : Int) (d : Nat) (a b : Score) (st : SState)
     (htt : st.tt.slots.size = 0) :
     alphaBetaSearch (boardGame z1 ev) ex le (({} : World).newBoard z1 pos turn np fm).1 d a b st =
       alphaBetaSearch (boardGame z2 ev) ex le (({} : World).newBoard z2 pos turn np fm).1 d a b st :=
-  (seed_independent_reachable hz1 hz2 ev ex le hpos hnp fm (ms := []) trivial d a b st htt).2
+  (seed_independent_reachable hz1 hz2 ev ex le hex hle hpos hnp fm (ms := []) trivial d a b st htt).2
 
 /-- **seed independence on any two boards showing the same game** whose (common) current position satisfies `WFplay`:
 `SeedBase` (same game, both histories good) is all that is needed besides — `GoodTree` is derived. -/
 theorem seed_independent_wf {z1 z2 : ZTable} (hz1 : z1.enpassant 0 = 0) (hz2 : z2.enpassant 0 = 0)
-    (ev : Position → Color → Int) (ex : Explore) (le : LeafEval) {w1 w2 : World} (hbase : SeedBase z1 z2 w1 0 w2 0)
+    (ev : Position → Color → Int) (ex : World → Explore) (le : LeafEval World)
+    (hex : ExRel (SeedRel z1 z2) ex ex) (hle : LeRel (SeedRel z1 z2) le le) {w1 w2 : World} (hbase : SeedBase z1 z2 w1 0 w2 0)
     (hwf : WFplay (w1.cur 0).pos (w1.board 0).turn) (d : Nat) (a b : Score) (st : SState)
     (htt : st.tt.slots.size = 0) :
     alphaBetaSearch (boardGame z1 ev) ex le w1 d a b st = alphaBetaSearch (boardGame z2 ev) ex le w2 d a b st :=
-  seed_independent hz1 hz2 ev ex le ⟨hbase, goodTree_of_wfplay (d + leafDepth le) hwf⟩ d (Nat.le_refl _) a b st htt
+  seed_independent hz1 hz2 ev ex le hex hle ⟨hbase, goodTree_of_wfplay (d + leafDepth le) hwf⟩ d (Nat.le_refl _) a b st htt
 
 /-- `seed_independent_start` on the initial position: the material search of any depth returns the same on the board
 hashed with `exZ` and on the board hashed with `exZ2` — nothing is evaluated. -/
 example (d : Nat) :
-    alphaBetaSearch (materialGame exZ) fullExploration .static (({} : World).newBoard exZ startPos .white 0 1).1 d
+    alphaBetaSearch (materialGame exZ) (constEx fullExploration) .static (({} : World).newBoard exZ startPos .white 0 1).1 d
         invalidScore invalidScore {} =
-      alphaBetaSearch (materialGame exZ2) fullExploration .static (({} : World).newBoard exZ2 startPos .white 0 1).1 d
+      alphaBetaSearch (materialGame exZ2) (constEx fullExploration) .static (({} : World).newBoard exZ2 startPos .white 0 1).1 d
         invalidScore invalidScore {} :=
-  seed_independent_start (z1 := exZ) (z2 := exZ2) rfl rfl _ fullExploration .static startPos_wfplay (Int.le_refl 0) 1 d
+  seed_independent_start (z1 := exZ) (z2 := exZ2) rfl rfl _ (constEx fullExploration) .static (ExRel.const _ _) .static startPos_wfplay (Int.le_refl 0) 1 d
     _ _ {} rfl
 
 /-- `seed_independent_reachable` on the initial position after `1. Nf3 Nf6 2. Ng1 Ng8` (twice, minus the last move):
 any depth, quiescence leaves included. -/
 example (d fuel : Nat) :
-    ORel (fun w1 w2 => SeedRel exZ exZ2 (d + leafDepth (.quiescence fullExploration fuel)) w1 w2 ∧
-        alphaBetaSearch (materialGame exZ) fullExploration (.quiescence fullExploration fuel) w1 d invalidScore
+    ORel (fun w1 w2 => SeedRel exZ exZ2 (d + leafDepth (P := World) (.quiescence (constEx fullExploration) fuel)) w1 w2 ∧
+        alphaBetaSearch (materialGame exZ) (constEx fullExploration) (.quiescence (constEx fullExploration) fuel) w1 d invalidScore
             invalidScore {} =
-          alphaBetaSearch (materialGame exZ2) fullExploration (.quiescence fullExploration fuel) w2 d invalidScore
+          alphaBetaSearch (materialGame exZ2) (constEx fullExploration) (.quiescence (constEx fullExploration) fuel) w2 d invalidScore
             invalidScore {})
       (pushAll exZ 0 (({} : World).newBoard exZ startPos .white 0 1).1 ms7)
       (pushAll exZ2 0 (({} : World).newBoard exZ2 startPos .white 0 1).1 ms7) :=
-  seed_independent_reachable (z1 := exZ) (z2 := exZ2) rfl rfl _ fullExploration _ startPos_wfplay (Int.le_refl 0) 1
+  seed_independent_reachable (z1 := exZ) (z2 := exZ2) rfl rfl _ (constEx fullExploration) _ (ExRel.const _ _) (.quiescence fuel (ExRel.const _ _)) startPos_wfplay (Int.le_refl 0) 1
     (genPlay_of_check ms7 _ _ (by decide +kernel)) d _ _ {} rfl
 
 end Reachable
